@@ -25,6 +25,7 @@ FullPairs  == Trip(S4) \X Trip(S4)
 \* source before / after / on the destination, and next to the 2^32 (here B^2) wrap
 DspBases == { << <<0, 0>>, <<0, 1>> >>, << <<0, 1>>, <<0, 0>> >>, << <<0, 2>>, <<0, 2>> >>,
               << <<B-1, B-2>>, <<0, 3>> >>, << <<0, 3>>, <<B-1, B-1>> >> }
+DspBases2 == { << <<0, 0>>, <<0, 1>> >>, << <<0, 1>>, <<0, 0>> >> }
 DspBasesQuick == { << <<0, 0>>, <<0, 1>> >>, << <<0, 1>>, <<0, 0>> >>, << <<B-1, B-2>>, <<B-1, B-1>> >> }
 
 \* ---- one or both sides external (needs B >= 8 so that step 4 = one 32-bit unit exists)
@@ -35,8 +36,12 @@ AhbmAll  == (0..3) \X (0..3)          \* plus the unknown encodings
 ExtPairsQuick == Uni({1, 2, 4}) \cup { << <<2, 4, B-1>>, <<4, 2, 0>> >> }
 ExtPairs      == Uni({0, 1, 2, 4, B-1}) \cup { <<t, Rot(t)>> : t \in Trip({1, 2, 4}) }
 ExtBasesQuick == { << <<0, 0>>, <<0, 4>> >>, << <<0, 3>>, <<0, 1>> >> }
+ExtBases3     == { << <<0, 0>>, <<0, 4>> >>, << <<0, 3>>, <<0, 1>> >>, << <<B-1, B-4>>, <<B-1, B-2>> >> }
 ExtBases      == { << <<0, 0>>, <<0, 4>> >>, << <<0, 4>>, <<0, 0>> >>, << <<0, 3>>, <<0, 1>> >>,
                    << <<0, 2>>, <<0, 2>> >>, << <<B-1, B-4>>, <<B-1, B-2>> >> }
+
+\* ---- D9 at scale (RealMap = TRUE): a source that starts on the last in-range cursor
+OobBases == { << <<1, B-1>>, <<0, 0>> >> }
 
 \* ---- the trigger of defect D8: double-word mode with size0 = B-1 (0xFFFF on the real machine)
 D8Sizes == {B - 1, 1}
